@@ -26,6 +26,13 @@ CHECKS = {
     "C19": ("byte-equality over all fragmentations for ZMTP framing; independent wire-level HMAC/correlation checker on a real Kernel", "DESIGN 2/C19"),
     "C20": ("pin-selection reference + permutation metamorphic relation + install decision table with stubbed installer", "DESIGN 2/C20"),
 }
+LEVELS = {}
+import re as _re
+for _f in os.listdir(f"{V}/vf/checks"):
+    if _f.endswith(".py") and _f.startswith("c"):
+        _m = _re.search(r'^LEVEL = "(\w+)"', open(f"{V}/vf/checks/{_f}").read(), _re.M)
+        if _m:
+            LEVELS[_f[:-3].upper()] = _m.group(1)
 NA_REASON = "check not built yet in this session (design in DESIGN.md section 2); nothing is claimed for it"
 
 props = [json.loads(l) for l in open(f"{V}/properties.jsonl")]
@@ -43,7 +50,7 @@ for p in props:
                 "replay_cmd_template": f"./check {pid} --replay {{path}}",
                 "engine": "vf",
                 "level_claimed": {
-                    "category": "exploration",
+                    "category": LEVELS.get(pid, "exploration"),
                     "text": "Runtime monitoring: the real pyscript code (and, for trigger properties, a real in-process Home Assistant on a virtual "
                     "clock) is driven with generated workloads and an independent oracle judges every execution; the property held on the "
                     "executions reported in the evidence file, nothing more. Sampling, not proof, is the right level for universally quantified "
